@@ -374,9 +374,9 @@ def run(ctx):
             if r['frontier']:
                 ctx.sample(dict(impl=impl, config=label,
                                 history=r['frontier'][len(r['frontier']) // 2]), limit=5)
-            if ctx.viol:
+            if ctx.unknown_viol():
                 break
-        if ctx.viol:
+        if ctx.unknown_viol():
             break
     ctx.count['traces_validated_against_impl'] = ctx.count['transitions']
     ctx.assumptions += ['homogeneous registry DAGs (one flavour), acyclic, with a C3-consistent order; at most one live subscription per registry',
